@@ -43,7 +43,8 @@ def ref_decode(b, universal):
 
 
 LINE_POOL = [b'', b'#', b' \t\f# coding: latin-1', b'# -*- coding: utf-8 -*-', b'#coding=nope', b'x = "\xe9"',
-             b'"coding: latin-1"', b'\xc3\xa9', b'# vim: set fileencoding=cp1252 :']
+             b'"coding: latin-1"', b'\xc3\xa9', b'# vim: set fileencoding=cp1252 :', b'# coding: iso8859_15',
+             b'#coding=euc_jp', b'x = "\xa4"']
 EOLS = [b'\n', b'\r', b'\r\n']
 
 
